@@ -114,6 +114,12 @@ structure RotAligned (rot : Vec3 ℝ) (s c sn : ℝ) : Prop where
   hx : rot.x = s * c
   hy : rot.y = s * sn
 
+/-- the azimuth of the rotation axis is reconstructed with the right sign: either the axis is
+    at least `min_accurate_sintheta` away from ±z, or its y component is non-negative
+    (in the near-axis branch the code takes `sinφ = sqrt(1 − cos²φ) ≥ 0`) -/
+def rotOK (rot : Vec3 ℝ) : Prop :=
+  (minAccurateSintheta : ℝ) ≤ Real.sqrt (1 - rot.z * rot.z) ∨ 0 ≤ rot.y
+
 theorem aux_cs (x y s : ℝ) (hs : 0 < s) (h : x * x + y * y = s * s) :
     x * (1 / s) * (x * (1 / s)) + y * (1 / s) * (y * (1 / s)) = 1 := by
   have hne : s ≠ 0 := ne_of_gt hs
@@ -156,14 +162,16 @@ theorem rotAngles_ortho (rot : Vec3 ℝ) (hu : unitV rot) :
   · have hpos : 0 < s := lt_of_lt_of_le minAccurateSintheta_pos h1
     exact ⟨by linarith, aux_cs _ _ _ hpos hxys⟩
   · refine ⟨by linarith, ?_⟩
-    have := aux_cs rot.x rot.y s h2 hxys
-    show rot.x / s * (rot.x / s) + rot.y / s * (rot.y / s) = 1
-    simpa [div_eq_mul_inv] using this
+    have := Real.mul_self_sqrt (sub_nonneg.mpr (aux_c2 _ _ _ h2 hxys))
+    show rot.x / s * (rot.x / s) + Real.sqrt (1 - rot.x / s * (rot.x / s))
+        * Real.sqrt (1 - rot.x / s * (rot.x / s)) = 1
+    linarith
   · exact ⟨by linarith, by simp⟩
 
-theorem rotAngles_aligned (rot : Vec3 ℝ) (hu : unitV rot) :
+theorem rotAngles_aligned (rot : Vec3 ℝ) (hu : unitV rot) (hok : rotOK rot) :
     RotAligned rot (rotAngles rot).1 (rotAngles rot).2.1 (rotAngles rot).2.2 := by
   unfold unitV nsq at hu
+  unfold rotOK at hok
   have hq : 0 ≤ 1 - rot.z * rot.z := by nlinarith [mul_self_nonneg rot.x, mul_self_nonneg rot.y]
   have hss := Real.mul_self_sqrt hq
   have hs0 := Real.sqrt_nonneg (1 - rot.z * rot.z)
@@ -176,7 +184,14 @@ theorem rotAngles_aligned (rot : Vec3 ℝ) (hu : unitV rot) :
   split_ifs with h1 h2
   · have hpos : 0 < s := lt_of_lt_of_le minAccurateSintheta_pos h1
     exact ⟨aux_mul _ _ hpos, aux_mul _ _ hpos⟩
-  · exact ⟨aux_div _ _ h2, aux_div _ _ h2⟩
+  · have hy : 0 ≤ rot.y := by
+      rcases hok with h | h
+      · exact absurd h h1
+      · exact h
+    refine ⟨aux_div _ _ h2, ?_⟩
+    show rot.y = s * Real.sqrt (1 - rot.x / s * (rot.x / s))
+    rw [aux_sin _ _ _ h2 hxys hy]
+    exact aux_div _ _ h2
   · have hz : s = 0 := le_antisymm (not_lt.mp h2) hs0
     have hx0 : rot.x = 0 := by
       rw [hz] at hxys; nlinarith [mul_self_nonneg rot.x, mul_self_nonneg rot.y]
@@ -202,10 +217,10 @@ theorem rotateRaw_nsq (dir rot : Vec3 ℝ) (hu : unitV rot) : nsq (rotateRaw dir
     congrArg (fun t => t * (dir.x * dir.x)) hs, congrArg (fun t => t * (dir.z * dir.z)) hs]
 
 /-- … and keeps the polar cosine with respect to the axis -/
-theorem rotateRaw_dot (dir rot : Vec3 ℝ) (hu : unitV rot) :
+theorem rotateRaw_dot (dir rot : Vec3 ℝ) (hu : unitV rot) (hok : rotOK rot) :
     dotR (rotateRaw dir rot) rot = dir.z := by
   have h := rotAngles_ortho rot hu
-  have ha := rotAngles_aligned rot hu
+  have ha := rotAngles_aligned rot hu hok
   unfold rotateRaw
   rcases hra : rotAngles rot with ⟨s, c, sn⟩
   rw [hra] at h ha
@@ -240,9 +255,9 @@ theorem rotate_eq_raw (dir rot : Vec3 ℝ) (hd : unitV dir) (hu : unitV rot) :
   unfold unitV
   rw [rotateRaw_nsq dir rot hu]; exact hd
 
-theorem rotate_dot (dir rot : Vec3 ℝ) (hd : unitV dir) (hu : unitV rot) :
+theorem rotate_dot (dir rot : Vec3 ℝ) (hd : unitV dir) (hu : unitV rot) (hok : rotOK rot) :
     dotR (rotate dir rot) rot = dir.z := by
-  rw [rotate_eq_raw dir rot hd hu]; exact rotateRaw_dot dir rot hu
+  rw [rotate_eq_raw dir rot hd hu]; exact rotateRaw_dot dir rot hu hok
 
 /-- ★ `ExitingDirectionSampler` returns a unit vector … -/
 theorem exitingDirection_unit (c : ℝ) (dir : Vec3 ℝ) (u : ℝ) (h1 : -1 ≤ c) (h2 : c ≤ 1)
@@ -252,9 +267,9 @@ theorem exitingDirection_unit (c : ℝ) (dir : Vec3 ℝ) (u : ℝ) (h1 : -1 ≤ 
 
 /-- … at polar cosine `c` from the incident direction -/
 theorem exitingDirection_dot (c : ℝ) (dir : Vec3 ℝ) (u : ℝ) (h1 : -1 ≤ c) (h2 : c ≤ 1)
-    (hu : unitV dir) : dotR (exitingDirection c dir u) dir = c := by
+    (hu : unitV dir) (hok : rotOK dir) : dotR (exitingDirection c dir u) dir = c := by
   unfold exitingDirection
-  rw [rotate_dot _ _ (fromSpherical_unit c _ h1 h2) hu]; rfl
+  rw [rotate_dot _ _ (fromSpherical_unit c _ h1 h2) hu hok]; rfl
 
 /-- squared norm of `p d − q e` for unit `d`, `e` -/
 theorem exitingRaw_nsq (p q : ℝ) (d e : Vec3 ℝ) (hd : unitV d) (he : unitV e) :
